@@ -186,3 +186,8 @@ package types
 //@ loop 0 invariant seen: 0 <= iter && iter <= len(ss)
 //@ loop 0 invariant acc: result == joinZ(ss, iter)
 //@ ensures exact: result == strsKey(ss)
+
+//@ func ValidateRequestContextUpdating
+//@ props C09
+//@ trusted
+//@ ensures err == NoErr ==> timeout >= 0 && repeatedTotal >= -1
